@@ -3,10 +3,13 @@ CONSTANTS
   MaxDgrams = 4
   Senders = {"s1", "s2"}
   SpawnPerEvent = FALSE
+  DropWhenBusy = FALSE
+  DoneOnClose = FALSE
 INVARIANT EventsInOrderOnce
 INVARIANT ErrorsInOrderOnce
 INVARIANT ConnectedOnce
 INVARIANT Complete
 INVARIANT Rebindable
+INVARIANT NoSendOnClosedPipe
 PROPERTY Terminates
 CHECK_DEADLOCK FALSE
